@@ -238,14 +238,15 @@ def _work_fft(job):
     def mk(idx, support):
         a = np.empty((1, G), dtype=object)
         for g in range(G):
-            a[0, g] = Log(V.var(var_name(idx, 0, g))) if g in support else Log(V(0))
+            # background entries are the constant 1 (an exact 0 would sit below the 1e-100 floor, outside the property)
+            a[0, g] = Log(V.var(var_name(idx, 0, g))) if g in support else Log(V(1))
         dp = DataPoint.__new__(DataPoint)
         dp.idx, dp.value, dp.name = idx, a, idx
         dp.outlier_prob, dp.outlier_prob_not, dp.outlier_marginal_prob = 0, 1, 0
         return dp
 
     # sparse symbolic children (3 non-zero entries each), parent fully symbolic on 3 entries as well
-    sup = {0: (0, 1, 2), 1: (0, 1, 3), 2: (2, 5, G - 1)}
+    sup = {0: (0, 1, 2), 1: (0, 1, 3), 2: (2, 5, 7)}
 
     def run():
         dps = [mk(i, sup[i]) for i in range(3)]
@@ -259,13 +260,14 @@ def _work_fft(job):
     prior = V(Fraction(1, G))
     ll = tree.data_log_likelihood
     # closed form of the oracle for this sparse instance: enumerate only supported indices
-    for k in (1, 2, 4, 5, 6, G - 1):
+    def val(i, g):
+        return dps[i].value[0, g].e
+    for k in (0, 1, 2, 3, 5, 6, 8):
         tot = V(0)
-        for g2 in sup[2]:
-            for g0 in sup[0]:
-                for g1 in sup[1]:
-                    if g0 + g1 <= g2 and g2 <= k:
-                        tot = tot + prior * (dps[0].value[0, g0].e * prior) * (dps[1].value[0, g1].e * prior) * (dps[2].value[0, g2].e * prior)
+        for g2 in range(k + 1):
+            for g0 in range(g2 + 1):
+                for g1 in range(g2 - g0 + 1):
+                    tot = tot + prior * (val(0, g0) * prior) * (val(1, g1) * prior) * (val(2, g2) * prior)
         res["obligations"] += 1
         r, model = CTX.prove(ll[0, k].e.eq(tot) if not tot.is_zero() else ll[0, k].e.eq(V(0)), use_pc=False)
         if r == "unsat":
@@ -276,7 +278,7 @@ def _work_fft(job):
             raise harness_inconclusive("fft identity unknown")
     res["twin_ok"] = True
     res["status"] = "cex" if res["cex"] else "ok"
-    res["sample"] = {"forest": "cherry at G=1000 (FFT dispatch), 3 symbolic entries per clone", "identities": res["obligations"]}
+    res["sample"] = {"forest": "cherry at G=1000 (FFT dispatch), 3 symbolic entries per clone on a constant background, root entries k <= 8", "identities": res["obligations"]}
     return res
 
 
